@@ -687,6 +687,71 @@ theorem C11_delegates_write_source (E : Env) (i : Nat) (p : Pool) (o : ObjId) (n
   rw [← (C11_step_is_source E i p o n d v htd).1]
   exact (C11_delegates_write E i p o n d y vid dflt cmp v htd hm hy hx).1
 
+/-- **A rejected write through a deferring attribute has no effect**: when an assignment through a
+DelegatesTo / PrototypedFrom attribute raises — the validator at the end of the chain rejects the value,
+the chain is incomplete or too long, the old value cannot be read — no object's values, delegate
+reference or listener table has changed and nobody was notified.  In particular a linked prototyped
+attribute keeps its forwarder: later changes of the prototype are still reported (`C11_notify`).  Stated
+for the model step and for the interpreted `setattr_delegate` (this is what seed C19-m10 — listener
+removed before the delegated setattr — falsifies in the source). -/
+theorem C11_rejected_write_no_effect (E : Env) (k : Nat) (p : Pool) (o : ObjId) (n : Name) (d : DelegInfo) (v : Val)
+    (e : Exc) (htd : (p.obj o).cls.trait n = .defer d) (h : (step E k p (.set o n v)).res = .error e) :
+    step E k p (.set o n v) = fail p e
+    ∧ execSet setattrDelegate E k p o n d (some v) = fail p e
+    ∧ (∀ j m, ((step E k p (.set o n v)).pool.obj j).dict m = (p.obj j).dict m
+        ∧ ((step E k p (.set o n v)).pool.obj j).fwd m = (p.obj j).fwd m
+        ∧ ((step E k p (.set o n v)).pool.obj j).deleg = (p.obj j).deleg)
+    ∧ (step E k p (.set o n v)).events = [] ∧ (step E k p (.set o n v)).hookExc = 0 := by
+  have hs : step E k p (.set o n v) = setDefer E k p o n d (some v) := by simp only [step, htd]
+  have hf : step E k p (.set o n v) = fail p e := by
+    rw [hs] at h ⊢
+    exact setDefer_error_no_effect E k p o n d v e h
+  refine ⟨hf, ?_, ?_, ?_, ?_⟩
+  · rw [← C11_write_is_source, ← hs, hf]
+  · intro j m; rw [hf]; exact ⟨rfl, rfl, rfl⟩
+  · rw [hf]; rfl
+  · rw [hf]; rfl
+
+/-- The hypothesis is satisfiable: on the F20 pool `o1.x = -1` with a validator that rejects negatives. -/
+example : (step { validate := fun _ _ x => if x < 0 then .error .traitError else .ok x } 3 protoPool (.set 1 nx (-1))).res
+    = .error .traitError := by decide
+
+/-- `_has_traits_trait(obj, (name, -2))` = `obj.base_trait(name)` (ctraits.c; the second chain walk of
+the C code, with `break` exits and the bound `++i >= 100`): the interpreted function returns a trait
+exactly when the model's `hookOk` holds, i.e. when `baseOk` finds the end of the deferral chain within
+the limit (the call `ListenerItem.register` makes, whose DelegationError fix bead785 of F18 catches). -/
+theorem C11_base_trait_is_source (p : Pool) (x : ObjId) (t : Name) :
+    (execBase Generated.DelegSrc.hasTraitsTrait p x t).isSome = hookOk p x t :=
+  hookOk_is_source p x t
+
+/-- Both outcomes occur: on the F20 pool `o0.base_trait('x')` resolves (to the typed trait of `o2`)… -/
+example : execBase Generated.DelegSrc.hasTraitsTrait protoPool 0 nx = some (.plain 0 3 .equality) := by decide
+
+/-- … and on a fresh pool, where `o0.d` is still None, it raises. -/
+example : execBase Generated.DelegSrc.hasTraitsTrait (mkPool [clsD, clsD, clsT]) 0 nx = none := by decide
+
+/-- **The name computation may fail** (fixes e4a9aa5 / 3882e87, and 4e38e77 of finding F111):
+`trait->delegate_attr_name(…)` returns NULL when `PyUnicode_Concat` fails, which on real inputs happens
+only when `type(obj).__prefix__` is not a `str` (prefix style `'*'`).  The model's `attrName` is total
+(hypothesis: every `__prefix__` is a `str`; `C11_read_is_source` / `C11_write_is_source` /
+`C11_base_trait_is_source` are stated for `totalName`); the interpretation takes the name computation as
+a parameter, and with a failing one the interpreted `getattr_delegate` returns the failure, the
+interpreted `setattr_delegate` raises it without having changed anything, and the interpreted
+`_has_traits_trait` (`base_trait`) on a deferring attribute returns NULL with the exception set and is
+free of undefined behaviour — using a NULL name register is *stuck* in the interpreters, so the
+unrepaired code (NULL dereference) does not satisfy this. -/
+theorem C11_name_failure_is_error_exit (E : Env) (k : Nat) (p : Pool) (recur : Option (ObjId → Name → Except Exc Val))
+    (o : ObjId) (n : Name) (d : DelegInfo) (v : Option Val) (e : Exc) :
+    execGet getattrDelegate p recur o n d (fun _ _ _ => .error e) = .error e
+    ∧ execSet setattrDelegate E k p o n d v (fun _ _ _ => .error e)
+        = (match (p.obj o).deleg with
+           | none => fail p .traitError
+           | some _ => fail p e)
+    ∧ ((p.obj o).cls.trait n = .defer d →
+        execBase Generated.DelegSrc.hasTraitsTrait p o n (fun _ _ _ => .error e) = none
+        ∧ execBaseDefined Generated.DelegSrc.hasTraitsTrait p o n (fun _ _ _ => .error e) = true) :=
+  ⟨read_name_failure p recur o n d e, write_name_failure E k p o n d v e, base_name_failure p o n d e⟩
+
 /-- `Delegate.__init__` (trait_types.py): metadata `_prefix`, `self.prefix`, `self.prefix_type`,
 `self.modify`; `DelegatesTo` passes `modify=True`, `PrototypedFrom` `modify=False`. -/
 theorem C11_delegate_init_is_source (dname pfx : Name) (modify : Bool) :
@@ -731,19 +796,40 @@ theorem C11_listener_table_is_source (p : Pool) (o : ObjId) (n : Name) (d : Dele
   rw [unlink_fwd_self, relink_fwd_self, removeListener_remove_is_source, removeListener_restore_is_source]
   exact ⟨rfl, rfl⟩
 
-/-- `_init_trait_delegate_listener` (has_traits.py): the listener is registered under
-`_trait_delegate_name(name, pattern)` on `self`, reports `name + notify_name[len(target):]` (= `name`)
-through `trait_property_changed`, and is stored in the table under `name`; `__listener_traits__` is
-filled with `get_delegate_pattern(name, trait)` at its two sites. -/
-theorem C11_init_listener_is_source :
-    Generated.DelegSrc.initListener = [
-      "name_pattern = self._trait_delegate_name(name, pattern)",
-      "target_name_len = len(name_pattern.split(':')[-1])",
-      "@weak_arg(self) ; def notify(self, object, notify_name, old, new): ;     self.trait_property_changed(name + notify_name[target_name_len:], old, new)",
-      "self.on_trait_change(notify, name_pattern, target=self)",
-      "self.__dict__.setdefault(ListenerTraits, {})[name] = notify"]
-    ∧ Generated.DelegSrc.patternSites = ["get_delegate_pattern(name, trait)", "get_delegate_pattern(name, value)"] :=
-  ⟨rfl, rfl⟩
+/-- `_init_trait_delegate_listener` (has_traits.py), interpreted on the class pattern
+`get_delegate_pattern` produced: the forwarder of `n` is registered under `" <d>:" ++ listenedName`, stored
+in the listener table under `n`, and reports a change of the listened attribute of the delegate as a
+change of `n` (`name + notify_name[len(target):]`) — what `forwarders` / `notify` of the model assume.
+`__listener_traits__` is filled with `get_delegate_pattern(name, trait)` at its two sites. -/
+theorem C11_init_listener_is_source (dname raw : Name) (modify : Bool) (clsPfx : Option Name) (n : Name) (hn : n ≠ [])
+    (hc : ':' ∉ listenedName clsPfx n (mkDelegate raw modify)) :
+    let out := initListenerSrc Generated.DelegSrc.initListener
+      (fun a b => (traitDelegateNameSrc Generated.DelegSrc.traitDelegateName clsPfx a b).getD [])
+      clsPfx n ((delegatePatternSrc Generated.DelegSrc.delegatePattern dname raw n).getD [])
+    (out.registered = (' ' :: dname ++ [':']) ++ listenedName clsPfx n (mkDelegate raw modify)
+      ∧ out.key = n
+      ∧ out.reported (listenedName clsPfx n (mkDelegate raw modify)) = n)
+    ∧ Generated.DelegSrc.patternSites = ["get_delegate_pattern(name, trait)", "get_delegate_pattern(name, value)"] := by
+  have hraw : (mkDelegate raw modify).raw = raw := by
+    unfold mkDelegate
+    split
+    · rfl
+    · split
+      · rfl
+      · simp only []
+        split <;> rfl
+  have hne : Model.Deleg.delegatePattern n raw ≠ [] := by
+    unfold Model.Deleg.delegatePattern
+    split
+    · exact hn
+    · split
+      · simp [hn]
+      · assumption
+  simp only [listenedName, hraw] at hc ⊢
+  rw [delegatePattern_is_source]
+  have := initListener_is_source clsPfx n (' ' :: dname) (Model.Deleg.delegatePattern n raw) hne hc
+  refine ⟨?_, rfl⟩
+  simpa using this
 
 /-- The interpretation is not vacuous: on the F20 pool, assigning `o1.x` (PrototypedFrom, local value 7)
 through the interpreted `setattr_delegate` stores locally and drops the forwarder … -/
